@@ -241,11 +241,7 @@ class AsyncManagementEnforcer(AsyncInternalEnforcer):
             rules.append(list(params))
 
         if self.auto_build_role_links and rule_added:
-            self.model.build_incremental_role_links(self.rm_map[ptype], PolicyOp.Policy_add, "g", ptype, rules)
-            if ptype in self.cond_rm_map:
-                self.model.build_incremental_conditional_role_links(
-                    self.cond_rm_map[ptype], PolicyOp.Policy_add, "g", ptype, rules
-                )
+            self._build_incremental_role_links(PolicyOp.Policy_add, ptype, rules)
         return rule_added
 
     async def add_named_grouping_policies(self, ptype, rules):
@@ -256,7 +252,7 @@ class AsyncManagementEnforcer(AsyncInternalEnforcer):
         """
         rules_added = await self._add_policies("g", ptype, rules)
         if self.auto_build_role_links and rules_added:
-            self.model.build_incremental_role_links(self.rm_map[ptype], PolicyOp.Policy_add, "g", ptype, rules)
+            self._build_incremental_role_links(PolicyOp.Policy_add, ptype, rules)
 
         return rules_added
 
@@ -285,7 +281,7 @@ class AsyncManagementEnforcer(AsyncInternalEnforcer):
             rules.append(list(params))
 
         if self.auto_build_role_links and rule_removed:
-            self.model.build_incremental_role_links(self.rm_map[ptype], PolicyOp.Policy_remove, "g", ptype, rules)
+            self._build_incremental_role_links(PolicyOp.Policy_remove, ptype, rules)
         return rule_removed
 
     async def remove_named_grouping_policies(self, ptype, rules):
@@ -293,7 +289,7 @@ class AsyncManagementEnforcer(AsyncInternalEnforcer):
         rules_removed = await self._remove_policies("g", ptype, rules)
 
         if self.auto_build_role_links and rules_removed:
-            self.model.build_incremental_role_links(self.rm_map[ptype], PolicyOp.Policy_remove, "g", ptype, rules)
+            self._build_incremental_role_links(PolicyOp.Policy_remove, ptype, rules)
 
         return rules_removed
 
@@ -302,9 +298,7 @@ class AsyncManagementEnforcer(AsyncInternalEnforcer):
         rule_removed = await self._remove_filtered_policy_returns_effects("g", ptype, field_index, *field_values)
 
         if self.auto_build_role_links and rule_removed:
-            self.model.build_incremental_role_links(
-                self.rm_map[ptype], PolicyOp.Policy_remove, "g", ptype, rule_removed
-            )
+            self._build_incremental_role_links(PolicyOp.Policy_remove, ptype, rule_removed)
         return rule_removed
 
     def add_function(self, name, func):
